@@ -44,7 +44,7 @@ Definition strncpy_s (c : cfg) (d dmax s slen destbos srcbos : Z) : prog Z :=
   else chk_dest_str c d dmax destbos (fun _ =>
     if s =? 0 then handle_error c 1 d dmax ESNULLP ;;; Ret ESNULLP
     else if rmax_str c <? slen then slen_max_clear c d dmax
-    else if negb (srcbos =? BOS_UNKNOWN) && (srcbos <? slen) then bos_overflow c d destbos
+    else if negb (srcbos =? BOS_UNKNOWN) && (srcbos <? slen) then bos_overflow c d (if destbos =? BOS_UNKNOWN then dmax else destbos)
     else if d <? s then copy_loop c 1 true d dmax s true (Z.to_nat dmax) d s slen
     else copy_loop c 1 false d dmax d true (Z.to_nat dmax) d s slen).
 
@@ -58,7 +58,7 @@ Definition strncat_s (c : cfg) (d dmax s slen destbos srcbos : Z) : prog Z :=
       len <- strnlen_s_prog c d dmax BOS_UNKNOWN ;;
       let err := if len <? dmax then EOK else ESZEROL in
       handle_error c 1 d dmax err ;;; Ret err
-    else if negb (srcbos =? BOS_UNKNOWN) && (srcbos <? slen) then bos_overflow c d destbos
+    else if negb (srcbos =? BOS_UNKNOWN) && (srcbos <? slen) then bos_overflow c d (if destbos =? BOS_UNKNOWN then dmax else destbos)
     else if d <? s then
       find_end c 1 true d dmax s (Z.to_nat dmax) d
         (fun n d' => copy_loop c 1 true d dmax s true n d' s slen)
